@@ -57,7 +57,7 @@ CHECKS = {
     },
     "C12": {
         "worlds": [{"name": "musig", "variants": {"quick": ["ship", "asan_nv"], "thorough": ["ship", "asan_nv", "alt"]},
-                    "runs": {"quick": 6000, "thorough": 300000}, "secondary_share": 0.1}],
+                    "runs": {"quick": 6000, "thorough": 200000}, "secondary_share": 0.1}],
         "rule": MUSIG_RULE, "components": COMPONENTS,
         "assumptions": ["reference model (sim/ref) is an independent BIP-327/BIP-340 implementation, self-tested against the BIP vectors at every check",
                         "nonce generation itself is not recomputed by the model (checked through uniqueness and through signature validity)"],
